@@ -285,19 +285,25 @@ pub fn run_faulty(spec: &str, fault: Option<(String, usize, ErrorKind)>) -> RunO
     let zero = blake3::Hash::from([0u8; 32]);
     match name {
         "encv-sync" | "encp-sync" => {
-            let (cd, co, cw) = (c("data"), c("ob"), c("w"));
+            let (cd, co, cw, cio) = (c("data"), c("ob"), c("w"), c("obio"));
             let mut out = Vec::new();
-            let (r, _) = with_sync_store!(kind, root, tree, ob, |o| {
-                let d = FReadAt(&data[..], cd.1.clone());
-                let fo = FOb(&o, co.1.clone());
-                let w = FWrite(&mut out, cw.1.clone());
-                if name == "encv-sync" {
-                    sync::encode_ranges_validated(d, fo, &ranges, w)
+            fn go<O: sync::Outboard>(validated: bool, d: FReadAt<&[u8]>, o: O, ranges: &bao_tree::ChunkRangesRef, w: FWrite<&mut Vec<u8>>) -> Result<(), bao_tree::io::EncodeError> {
+                if validated {
+                    sync::encode_ranges_validated(d, o, ranges, w)
                 } else {
-                    sync::encode_ranges(d, fo, &ranges, w)
+                    sync::encode_ranges(d, o, ranges, w)
                 }
-            });
-            RunOut { res: r.map(|_| "Ok".into()).unwrap_or_else(|e| enc_err(&e)), out, ctls: vec![cd, co, cw] }
+            }
+            let val = name == "encv-sync";
+            let d = FReadAt(&data[..], cd.1.clone());
+            let w = FWrite(&mut out, cw.1.clone());
+            // io backed stores: the backing reader is an io object of its own ("obio")
+            let r = match kind {
+                "preIo" => go(val, d, FOb(PreOrderOutboard { root, tree, data: FReadAt(ob, cio.1.clone()) }, co.1.clone()), &ranges, w),
+                "postIo" => go(val, d, FOb(PostOrderOutboard { root, tree, data: FReadAt(ob, cio.1.clone()) }, co.1.clone()), &ranges, w),
+                _ => with_sync_store!(kind, root, tree, ob, |o| go(val, d, FOb(&o, co.1.clone()), &ranges, w)).0,
+            };
+            RunOut { res: r.map(|_| "Ok".into()).unwrap_or_else(|e| enc_err(&e)), out, ctls: vec![cd, co, cw, cio] }
         }
         "encv-fsm" | "encp-fsm" => {
             let (cd, co, cw) = (c("data"), c("ob"), c("w"));
